@@ -574,6 +574,10 @@ func (s *Lexer) getNextToken() (*Token, error) {
 	switch current_state {
 	case SERROR:
 		token.TokenType = ERROR
+	case SSTRING_S_ESCAPE:
+		fallthrough
+	case SSTRING_D_ESCAPE:
+		fallthrough
 	case SSTRING_SINGLE:
 		fallthrough
 	case SSTRING_DOUBLE:
@@ -714,6 +718,8 @@ func (s *Lexer) getNextToken() (*Token, error) {
 		token.TokenType = NEQUAL
 	case SCOLON:
 		token.TokenType = ERROR
+	case SEXCL:
+		token.TokenType = ERROR
 	case SBLOCKCOMMENT:
 		fallthrough
 	case SBLOCKCOMMENTSTARTEND:
@@ -722,6 +728,8 @@ func (s *Lexer) getNextToken() (*Token, error) {
 		unendingBlockComment = true
 		token.TokenType = ERROR
 	case SBLOCKCOMMENTFINAL:
+		fallthrough
+	case SCOMMENTSTART:
 		fallthrough
 	case SCOMMENT:
 		token.TokenType = COMMENT
